@@ -588,10 +588,16 @@ func Monitor(prop string, c Case, sch *Schema, obs []OpObs) []Failure {
 				}
 			}
 			var prev *OpObs
+			// (a line between the two that changes the machine's mode - backoff, queue limit - makes
+			// the later call a call under other conditions)
+			modeChanged := false
 			for j := li - 1; j >= 0; j-- {
 				if obs[j].IsOp {
 					prev = &obs[j]
 					break
+				}
+				if f := strings.Fields(obs[j].Line); len(f) > 0 && (f[0] == "backoff" || f[0] == "limit") {
+					modeChanged = true
 				}
 			}
 			if isCheck && prev != nil && !ci.faulty && !ci.nested {
@@ -601,7 +607,7 @@ func Monitor(prop string, c Case, sch *Schema, obs []OpObs) []Failure {
 			}
 			// a check answers what the same mutation returns when it is issued next (non-Multi states,
 			// handlers that do not depend on how often they were called)
-			if !isCheck && prev != nil && !ci.faulty && !ci.nested && !ci.nthRules && !ci.detach && !ci.disposes {
+			if !isCheck && prev != nil && !modeChanged && !ci.faulty && !ci.nested && !ci.nthRules && !ci.detach && !ci.disposes {
 				pf := strings.Fields(prev.Line)
 				of := strings.Fields(o.Line)
 				if len(pf) == 2 && len(of) == 2 && pf[1] == of[1] &&
